@@ -659,7 +659,15 @@ class Progress(JupyterMixin, RenderHook):
             self.console.show_cursor(False)
             self._enable_redirect_io()
             self.console.push_render_hook(self)
-            self.refresh()
+            try:
+                self.refresh()
+            except BaseException:
+                # __exit__ will not run if __enter__ raises, so undo the above here
+                self._started = False
+                self.console.show_cursor(True)
+                self._disable_redirect_io()
+                self.console.pop_render_hook()
+                raise
             if self.auto_refresh:
                 self._refresh_thread = _RefreshThread(self, self.refresh_per_second)
                 self._refresh_thread.start()
